@@ -1,14 +1,17 @@
 import Uhppote.Driver.SpecBCD
 import Uhppote.Driver.Order
-/-! `oracle`: evaluates the executable SPEC on the line protocol. Imports neither `Gen` nor
-    `Model`, so it still builds when a regenerated file or a proof is broken. -/
+import Uhppote.Driver.SpecCodec
+/-! `oracle`: judges observations `case => implementation output` against the executable SPEC.
+    Imports nothing regenerated (`Gen`), so it still builds when a regenerated file or a proof
+    is broken. Answers `ok`, `unspecified` or `bad <what the property requires>`. -/
 open Uhppote
 
-def handlers : List (List String → Option String) :=
-  [Driver.SpecBCD.handle, Driver.Order.spec]
+def handlers : List (List String → List String → Option String) :=
+  [Driver.SpecBCD.handle, Driver.Order.spec, Driver.SpecCodec.handle]
 
 def handle (ts : List String) : String :=
-  match handlers.findSome? (· ts) with
+  let (c, impl) := Driver.splitObs ts
+  match handlers.findSome? (fun h => h c impl) with
   | some s => s
   | none => "bad-op"
 
